@@ -27,10 +27,12 @@ var targets = map[string][]string{
 		"Overlay.checkPendingTreeMarshal+cond", "Overlay.savePendingMsg", "Overlay.RegisterTree", "Overlay.handleSendTree+cond",
 		"Overlay.handleSendTreeMarshal+cond", "Overlay.handleRequestTree", "Overlay.handleRequestRoster", "Overlay.handleSendRoster",
 		"Overlay.nodeDone", "Overlay.nodeDelete", "Overlay.cleanTreeStorage+cond", "Overlay.Close",
-		"Overlay.newTreeNodeInstanceFromToken+cond", "Overlay.NewTreeNodeInstanceFromService", "Overlay.RegisterProtocolInstance"},
+		"Overlay.newTreeNodeInstanceFromToken+cond", "Overlay.NewTreeNodeInstanceFromService", "Overlay.RegisterProtocolInstance", "Overlay.SendToTreeNode+cond"},
 	"treenode.go": {"TreeNodeInstance.aggregate+cond", "TreeNodeInstance.createValueAndVerify+cond", "TreeNodeInstance.ProcessProtocolMsg+cond",
 		"TreeNodeInstance.notifyDispatch", "TreeNodeInstance.dispatchMsgReader", "TreeNodeInstance.closeDispatch",
-		"TreeNodeInstance.dispatchMsgToProtocol", "TreeNodeInstance.dispatchHandler", "TreeNodeInstance.dispatchChannel"},
+		"TreeNodeInstance.dispatchMsgToProtocol", "TreeNodeInstance.dispatchHandler", "TreeNodeInstance.dispatchChannel",
+		"TreeNodeInstance.SendTo+cond", "TreeNodeInstance.Broadcast", "TreeNodeInstance.Multicast", "TreeNodeInstance.SendToParent+cond",
+		"TreeNodeInstance.SendToChildren+cond", "TreeNodeInstance.SendToChildrenInParallel"},
 	"treestorage.go": {"treeStorage.Register+cond", "treeStorage.Unregister+cond", "treeStorage.IsRegistered+cond", "treeStorage.IsRequested+cond",
 		"treeStorage.Get", "treeStorage.getAndRefresh", "treeStorage.Set", "treeStorage.Remove", "treeStorage.GetRoster+cond",
 		"treeStorage.Close", "treeStorage.cancelDeletion"},
